@@ -28,11 +28,19 @@ def with_latest_from_(
                         values[i] = value
 
                 subscription.disposable = child.subscribe(
-                    on_next, observer.on_error, scheduler=scheduler
+                    on_next, on_error, scheduler=scheduler
                 )
                 return subscription
 
             parent_subscription = SingleAssignmentDisposable()
+
+            def on_error(error: Exception) -> None:
+                with parent.lock:
+                    observer.on_error(error)
+
+            def on_completed() -> None:
+                with parent.lock:
+                    observer.on_completed()
 
             def on_next(value: Any) -> None:
                 with parent.lock:
@@ -44,7 +52,7 @@ def with_latest_from_(
                 subscribechild(i, child) for i, child in enumerate(children)
             ]
             disp = parent.subscribe(
-                on_next, observer.on_error, observer.on_completed, scheduler=scheduler
+                on_next, on_error, on_completed, scheduler=scheduler
             )
             parent_subscription.disposable = disp
 
